@@ -177,3 +177,12 @@ Example C01_leaf_keys_hypothesis_needed :
   conf_ord [] v t = true /\ lossless t = true /\ vals_ok collP v = false /\
   pk [] collP v (cp true t) = Ok (VDict [(VStr "same", VInt 2)]).
 Proof. cbv zeta. repeat (match goal with |- _ /\ _ => split end); vm_compute; reflexivity. Qed.
+
+(* Literal types round-trip *)
+Example C01_literal :
+  let t := SList (SLit [VInt 1; VStr "a"; VBool true; VNone]) in
+  let v := VList [VNone; VBool true; VStr "a"; VInt 1] in
+  conf_ord [] v t = true /\ lossless t = true /\ vals_ok exP v = true /\
+  (w <- pk [] exP v (cp true t) ;; uk [] exP w (cu true t)) = Ok v /\
+  conf [] (VList [VInt 2]) t = false.
+Proof. cbv zeta. repeat (match goal with |- _ /\ _ => split end); vm_compute; reflexivity. Qed.
